@@ -59,12 +59,12 @@ struct LTI : public LTIStateModel {
     }
 };
 
-struct ScriptedLik : public LikelihoodModel {
-    GaussianLikelihood inner_; const Shared* sh_;
-    ScriptedLik(double scale, const Shared* sh) : inner_(scale), sh_(sh) {}
+struct ScriptedLik : public GaussianLikelihood {
+    const Shared* sh_;
+    ScriptedLik(double scale, const Shared* sh) : GaussianLikelihood(scale), sh_(sh) {}
     std::pair<bool, VectorXd> likelihood(const MeasurementModel& mm, const Ref<const MatrixXd>& states) override {
         if (!sh_->lik_ok) return std::make_pair(false, VectorXd::Zero(1));
-        return inner_.likelihood(mm, states);
+        return GaussianLikelihood::likelihood(mm, states);
     }
 };
 
